@@ -235,16 +235,18 @@ theorem C10_one_live_socket (cfg : Cfg) (now hid chan : Nat) (request : Bytes) (
   · unfold dnsCallback
     split
     · rw [hs]; simp
-    · split
+    · by_cases hc : cfg.netErrs.contains e = true
       · have t := trySend_ok cfg (cfg.maxTries + 1)
           { h with socks := h.socks.erase sock, peers := erase sock h.peers } ns sc
         have h1 := t.socks
         have h2 := t.sends_le
-        simp only at h1 ⊢
-        rw [h1, hs]
-        simp only [List.erase_cons_head, List.nil_append, List.length_map]
+        simp only [hs, List.erase_cons_head] at h1 h2
+        simp only [hc, if_true, hs, List.erase_cons_head]
+        rw [h1]
+        simp only [List.nil_append, List.length_map]
         exact h2
-      · simp only [hs, List.erase_cons_head, List.length_nil, Nat.zero_le]
+      · have hc' : cfg.netErrs.contains e = false := by simpa using hc
+        simp only [hc', Bool.false_eq_true, if_false, hs, List.erase_cons_head, List.length_nil, Nat.zero_le]
 
 /-! ## 4. Release -/
 
